@@ -370,7 +370,9 @@ class PybindWrapper:
         if variable.default is None:
             variable_value = variable.name
         else:
+            # The initialiser is an expression, not a name in the namespace.
             variable_value = variable.default
+            namespace = ""
 
         return '{prefix}{module_var}.attr("{variable_name}") = {namespace}{variable_value};'.format(
             prefix=prefix,
